@@ -20,9 +20,10 @@ def accountingStep (pre : Snap) (t : Track) (s : Step) : Bool :=
   s.post.msgCount == msgCountOf t0 s.post.queue && s.post.byteCount == byteCountOf t0 s.post.queue
 
 /-- the queue a dispatch in this step would take -/
-def queueAtCheck (nextSid : Sid) (pre : Snap) (e : Ev) : List Sid :=
+def queueAtCheck (nextSid : Sid) (stopped : Bool) (pre : Snap) (e : Ev) : List Sid :=
   match e with
-  | .send sid _ _ msgs => if sid = nextSid ∧ msgs.isEmpty = false then pre.queue ++ [sid] else pre.queue
+  | .send sid _ _ msgs =>
+    if sid = nextSid ∧ msgs.isEmpty = false ∧ stopped = false then pre.queue ++ [sid] else pre.queue
   | .cancel sid => pre.queue.filter (· ≠ sid)
   | _ => pre.queue
 
@@ -41,8 +42,8 @@ def isLookupAnswer : Ev → Bool
     (and resolved). -/
 def dispatchStep (cfg : Cfg) (pre : Snap) (t : Track) (s : Step) : Bool :=
   let t0 := trackEv pre t s.ev
-  let q := queueAtCheck t.nextSid pre s.ev
-  let d := dispatched t.nextSid pre s
+  let q := queueAtCheck t.nextSid t.stopped pre s.ev
+  let d := dispatched t.nextSid t.stopped pre s
   (!s.post.idle || s.post.queue.isEmpty || !thresh cfg s.post.msgCount s.post.byteCount) &&
   (!d || (match s.ev with | .tick => true | _ => thresh cfg (msgCountOf t0 q) (byteCountOf t0 q))) &&
   (match s.ev with | .tick => !(pre.idle && !pre.queue.isEmpty && pre.looper) || d | _ => true) &&
